@@ -592,6 +592,30 @@ func (w *World) catEqPlain(parts []Str, plain Str) *Term {
 	pb := w.strBytes(plain)
 	pos := 0
 	var conj []*Term
+	// an address print followed by a byte string that starts with a character no address print
+	// contains (a separator): the print ends at the first such character of the plain string
+	if len(parts) >= 2 && parts[0].tok != nil && (parts[0].tok.kind == "ip" || parts[0].tok.kind == "badip") && parts[1].tok == nil && parts[1].cat == nil && !parts[1].opq && parts[1].Len() > 0 {
+		if sep, ok := w.strAt(parts[1], 0).Const64(); ok && !strings.ContainsRune("0123456789abcdef:.?", rune(sep)) {
+			cut := -1
+			for i, t := range pb {
+				c, ok := t.Const64()
+				if !ok {
+					return nil
+				}
+				if c == sep {
+					cut = i
+					break
+				}
+			}
+			if cut < 0 {
+				return w.tt.F
+			}
+			head, _ := Str{b: pb[:cut]}.Concrete()
+			conj = append(conj, w.tokEq(parts[0], Str{s: head}))
+			parts = parts[1:]
+			pos = cut
+		}
+	}
 	for i, p := range parts {
 		if p.cat != nil || p.opq {
 			return nil
